@@ -1084,3 +1084,33 @@ func smallExhaustive(r *rand.Rand, stream, idp string, typs []TypeSpec, plugin s
 	rec(nil)
 	return out
 }
+
+// HandWrittenOverStaleC11: an old derived.gen.go still declares deriveEqualH, which the user has since written
+// by hand in a file that sorts after derived.gen.go (the type checker keeps the declaration it meets first).
+// The call of the hand-written function is not a derive call: no clash, nothing to rename, and the
+// hand-written file stays as it is — also next to a real derive call of the same plugin and argument types.
+func HandWrittenOverStaleC11() []*Case {
+	decl := "type A struct{ X int }"
+	typs := []TypeSpec{{Go: "*A", Wire: "(p (nm 0 A (st int)))", Decl: decl}}
+	eq := func(name string) string {
+		return "// " + name + " returns whether this and that are equal.\nfunc " + name + "(this, that *A) bool {\n\treturn (this == nil && that == nil) ||\n\t\tthis != nil && that != nil &&\n\t\t\tthis.X == that.X\n}\n"
+	}
+	stale := "// Code generated by goderive DO NOT EDIT.\n\npackage p\n\n" + eq("deriveEqual") + "\n" + eq("deriveEqualH")
+	hand := "package p\n\nfunc deriveEqualH(a, b *A) bool { return a == b }\n\nfunc UseH(a, b *A) bool { return deriveEqualH(a, b) }\n"
+	var out []*Case
+	for i, fname := range []string{"util.go", "m_hand.go", "a0_hand.go"} { // the last one sorts BEFORE derived.gen.go
+		for j, withCall := range []bool{true, false} {
+			c := &Case{ID: fmt.Sprintf("hw%d%d", i, j), Stream: "pending", Types: typs, Plugins: Plugins("derive", nil),
+				Variants: AllVariants, NoModel: true, ExtraFixed: true, OtherFile: "z_other.go",
+				Extra: map[string]string{"p/derived.gen.go": stale, "p/" + fname: hand}}
+			if withCall {
+				c.Files = []FileSpec{{Name: "a.go", Calls: []CallSpec{Call("equal", "deriveEqual", 0)}}}
+			} else {
+				// the type declaration still has to live somewhere: a wrapper of another plugin
+				c.Files = []FileSpec{{Name: "a.go", Calls: []CallSpec{Call("hash", "deriveHash", 0)}}}
+			}
+			out = append(out, c)
+		}
+	}
+	return out
+}
